@@ -27,6 +27,7 @@ func checkC03(c *Check, a *Anchors) {
 	c03CmdIgnoreScoped(c, a)
 	c03NoDroppedError(c, a)
 	c03ExitCodeMap(c, a)
+	c14Registration(c, a) // a defer entry is registered only when the loop reaches it: nothing listed after a failing command starts
 }
 
 // ssaLabel names a call instruction by its (static or interface) callee object.
